@@ -36,10 +36,12 @@ VARIABLES
   isOpen,   \* database open
   flushed,  \* a memtable table was built since the last edit (the next edit installs it)
   gpins,    \* versions pinned by in-flight gets: set of [t, ver]
-  deferred  \* tables a deletion pass had to keep only because a read view pinned them
+  deferred, \* tables a deletion pass had to keep only because a read view pinned them
+  ackStore, \* key -> value after every acknowledged write, in call order (single client)
+  inflight  \* operations of the write call that has started but not returned, or <<>>
 
 traceVars == <<l, viol, bad, dirty, lastEv, runInfo, keep, lastIter, manNo, isOpen, flushed,
-               gpins, deferred>>
+               gpins, deferred, ackStore, inflight>>
 allVars == <<coreVars, traceVars>>
 
 Ev == Rec[l]
@@ -155,6 +157,7 @@ TraceInit ==
   /\ l = 1 /\ viol = <<>> /\ bad = {} /\ dirty = FALSE /\ lastEv = "none"
   /\ runInfo = [run |-> 0, seed |-> 0] /\ keep = <<>> /\ lastIter = 0 /\ manNo = 0
   /\ isOpen = FALSE /\ flushed = FALSE /\ gpins = {} /\ deferred = {}
+  /\ ackStore = <<>> /\ inflight = <<>>
 
 Report(final) ==
   PrintT(<<"@@RUN", ToJson([run |-> runInfo.run, seed |-> runInfo.seed, lines |-> l,
@@ -169,18 +172,19 @@ TReset ==
   /\ l' = l + 1 /\ viol' = <<>> /\ bad' = {} /\ dirty' = FALSE /\ lastEv' = "none"
   /\ runInfo' = [run |-> Ev.run, seed |-> Ev.seed] /\ keep' = <<>> /\ lastIter' = 0
   /\ manNo' = 0 /\ isOpen' = FALSE /\ flushed' = FALSE /\ gpins' = {} /\ deferred' = {}
+  /\ ackStore' = [k \in 1..Ev.nk |-> 0] /\ inflight' = <<>>
 
 TEnd ==
   /\ IsEv("End")
   /\ Report(FinalViol)
   /\ PrintT(<<"@@END", l>>)
   /\ l' = l + 1
-  /\ UNCHANGED <<coreVars, viol, bad, dirty, lastEv, runInfo, keep, lastIter, manNo, isOpen, flushed, gpins, deferred>>
+  /\ UNCHANGED <<coreVars, viol, bad, dirty, lastEv, runInfo, keep, lastIter, manNo, isOpen, flushed, gpins, deferred, ackStore, inflight>>
 
 ---------------------------------------------------------------------------
 (* events without effect on the model *)
 
-StutterNames == {"Open", "ManifestSnapshot", "Call", "Ret",
+StutterNames == {"Open", "ManifestSnapshot",
                  "CompactCall", "CompactRet", "FlushCall", "FlushRet", "Close", "Closing",
                  "CloseRet", "RecoverWal", "BadState", "Fault", "BgBegin",
                  "BgEnd"}
@@ -188,7 +192,88 @@ StutterNames == {"Open", "ManifestSnapshot", "Call", "Ret",
 TStutter ==
   /\ l <= Len(Rec) /\ Rec[l].e \in StutterNames
   /\ Judge /\ Step(FALSE, "")
+  /\ UNCHANGED <<coreVars, runInfo, keep, lastIter, manNo, isOpen, flushed, gpins, deferred, ackStore, inflight>>
+
+---------------------------------------------------------------------------
+(* write calls of the single client: what is acknowledged, what is in flight *)
+
+RECURSIVE ApplyOps(_, _, _)
+ApplyOps(st, ops, i) ==
+  IF i > Len(ops) THEN st
+  ELSE ApplyOps([st EXCEPT ![ops[i][1]] = IF ops[i][2] = 1 THEN ops[i][3] ELSE 0], ops, i + 1)
+
+TCall ==
+  /\ IsEv("Call")
+  /\ inflight' = Ev.ops
+  /\ Judge /\ Step(FALSE, "")
+  /\ UNCHANGED <<coreVars, runInfo, keep, lastIter, manNo, isOpen, flushed, gpins, deferred,
+                 ackStore>>
+
+TRet ==
+  /\ IsEv("Ret")
+  /\ ackStore' = IF Ev.ok THEN ApplyOps(ackStore, inflight, 1) ELSE ackStore
+  /\ inflight' = <<>>
+  /\ JudgeAnd(IF Ev.ok THEN <<>>
+              ELSE ObsViol(<<"C01", "C09">>, "WriteFailed", [keys |-> <<>>, at |-> 0]))
+  /\ Step(FALSE, "")
   /\ UNCHANGED <<coreVars, runInfo, keep, lastIter, manNo, isOpen, flushed, gpins, deferred>>
+
+---------------------------------------------------------------------------
+(* crash probes (check-only): the image after the first j journal operations, optionally with
+   operation j+1 torn, was opened by the real code; judge what it recovered *)
+
+ProbeDir(d) == {<<d.dir[i][1], d.dir[i][2]>> : i \in 1..Len(d.dir)}
+
+ProbeDirOK(d) ==
+  LET dir == ProbeDir(d)
+      tabs == FileNos(ToVer(d.levels), NL) IN
+  /\ \A x \in dir : \/ x[1] \in {"current", "lock"}
+                     \/ (x[1] = "manifest" /\ x[2] = d.man)
+                     \/ (x[1] = "table" /\ x[2] \in tabs)
+                     \/ (x[1] = "wal" /\ x[2] >= d.wal)
+  /\ \A n \in tabs : <<"table", n>> \in dir
+  /\ <<"manifest", d.man>> \in dir /\ <<"current", 0>> \in dir /\ <<"wal", d.curwal>> \in dir
+
+TProbe ==
+  /\ IsEv("Probe")
+  /\ LET got == [k \in Keys |-> Ev.gets[k]]
+         base == {ackStore} \cup (IF inflight # <<>> THEN {ApplyOps(ackStore, inflight, 1)} ELSE {})
+         mk1 == << <<Ev.marker[1], 1, IF Ev.gen = 2 THEN Ev.marker[2] - 1 ELSE Ev.marker[2]>> >>
+         allowed == IF Ev.gen = 2 THEN base \cup {ApplyOps(s, mk1, 1) : s \in base} ELSE base
+         pr == IF Ev.torn > 0 THEN <<"C16">> ELSE <<"C02">>
+         det == [keys |-> <<Ev.j, Ev.torn, Ev.gen>>, at |-> 0]
+         sfx == IF Ev.torn > 0 THEN (IF Ev.opts.reuse THEN "_TornReuse" ELSE "_TornNoReuse")
+                ELSE (IF Ev.opts.reuse THEN "_Reuse" ELSE "_NoReuse")
+         dirx == ProbeDir(Ev.dump)
+         onlyNewerManifests ==
+            /\ \A x \in dirx : \/ x[1] \in {"current", "lock"}
+                               \/ (x[1] = "manifest" /\ x[2] >= Ev.dump.man)
+                               \/ (x[1] = "table" /\ x[2] \in FileNos(ToVer(Ev.dump.levels), NL))
+                               \/ (x[1] = "wal" /\ x[2] >= Ev.dump.wal)
+            /\ \A n \in FileNos(ToVer(Ev.dump.levels), NL) : <<"table", n>> \in dirx
+         vis == SelectSeq([k \in 1..nk |-> <<k, got[k]>>], LAMBDA x : x[2] # 0)
+         v0 == IF Ev.hang \/ Ev.panic THEN ObsViol(pr \o <<"C09">>, "RecoveryHangOrPanic" \o sfx, det) ELSE <<>>
+         v1 == IF ~Ev.open_ok /\ ~Ev.hang /\ ~Ev.panic THEN ObsViol(pr, "RecoveryFailed" \o sfx, det) ELSE <<>>
+         v2 == IF Ev.open_ok /\ (Ev.geterrs > 0 \/ got \notin allowed)
+               THEN ObsViol(pr, "RecoveredStoreWrong" \o sfx, det) ELSE <<>>
+         v3 == IF Ev.open_ok /\ (~Ev.fwdok \/ Ev.fwd # vis)
+               THEN ObsViol(pr \o <<"C04">>, "RecoveredScanDiffers" \o sfx, det) ELSE <<>>
+         v4 == IF Ev.open_ok /\ (~Ev.put_ok \/ ~Ev.reopen_ok)
+               THEN ObsViol(pr, "NotUsableAfterRecovery" \o sfx, det) ELSE <<>>
+         v5 == IF Ev.open_ok /\ Ev.put_ok /\ Ev.reopen_ok
+                  /\ (Ev.geterrs2 > 0 \/
+                      [k \in Keys |-> Ev.gets2[k]] #
+                         ApplyOps(got, << <<Ev.marker[1], 1, Ev.marker[2]>> >>, 1))
+               THEN ObsViol(pr, "PostRecoveryWriteLost" \o sfx, det) ELSE <<>>
+         v6 == IF Ev.open_ok /\ Ev.quiet /\ ~ProbeDirOK(Ev.dump)
+               THEN ObsViol(<<"C11">>, IF onlyNewerManifests THEN "CrashOrphanNewerManifest"
+                                       ELSE "CrashDirNotExact", det) ELSE <<>>
+         v7 == IF Ev.open_ok /\ Ev.quiet /\ ~WellFormedVer(ToVer(Ev.dump.levels), files, NL)
+               THEN ObsViol(<<"C10">>, "CrashIllFormed", det) ELSE <<>> IN
+     JudgeAnd(((((((v0 \o v1) \o v2) \o v3) \o v4) \o v5) \o v6) \o v7)
+  /\ Step(FALSE, "")
+  /\ UNCHANGED <<coreVars, runInfo, keep, lastIter, manNo, isOpen, flushed, gpins, deferred,
+                 ackStore, inflight>>
 
 ---------------------------------------------------------------------------
 (* filesystem operations (SimFs journal) *)
@@ -203,7 +288,7 @@ TFs ==
   /\ Judge /\ Step(Ev.op \in {"remove", "rename"}, "Fs")
   /\ UNCHANGED <<nk, seq, hist, mem, imm, immOn, immDone, immWal, files, cur, pins, snaps,
                  pending, comp, nextFile, curWal, logWal, nextPin, gcDue, runInfo, keep, lastIter,
-                 manNo, isOpen, flushed, gpins, deferred>>
+                 manNo, isOpen, flushed, gpins, deferred, ackStore, inflight>>
 
 ---------------------------------------------------------------------------
 (* recovery *)
@@ -218,7 +303,7 @@ TRecoverManifest ==
   /\ Judge /\ Step(FALSE, "")
   /\ keep' = <<>> /\ lastIter' = 0 /\ isOpen' = FALSE /\ flushed' = FALSE
   /\ gpins' = {} /\ deferred' = {}
-  /\ UNCHANGED <<nk, hist, files, disk, nextPin, gcDue, runInfo>>
+  /\ UNCHANGED <<nk, hist, files, disk, nextPin, gcDue, runInfo, ackStore, inflight>>
 
 \* the database is open: adopt the recovered memtable, sequence number and WAL
 TOpened ==
@@ -236,14 +321,14 @@ TOpened ==
   /\ isOpen' = TRUE
   /\ UNCHANGED <<nk, imm, immOn, immDone, immWal, files, cur, pins, snaps, pending, comp, disk,
                  nextFile, logWal, nextPin, gcDue, runInfo, keep, lastIter, manNo, flushed, gpins,
-                 deferred>>
+                 deferred, ackStore, inflight>>
 
 TOpenRet ==
   /\ IsEv("OpenRet")
   /\ JudgeAnd(IF Ev.ok THEN <<>>
               ELSE ObsViol(<<"C01", "C02">>, "OpenFailed", [keys |-> <<>>, at |-> 0]))
   /\ Step(FALSE, "")
-  /\ UNCHANGED <<coreVars, runInfo, keep, lastIter, manNo, isOpen, flushed, gpins, deferred>>
+  /\ UNCHANGED <<coreVars, runInfo, keep, lastIter, manNo, isOpen, flushed, gpins, deferred, ackStore, inflight>>
 
 TClosed ==
   /\ IsEv("Closed")
@@ -251,7 +336,7 @@ TClosed ==
   /\ isOpen' = FALSE /\ pins' = {} /\ snaps' = <<>> /\ comp' = NoComp /\ pending' = {}
   /\ keep' = <<>> /\ gpins' = {}
   /\ UNCHANGED <<nk, seq, hist, mem, imm, immOn, immDone, immWal, files, cur, disk, nextFile,
-                 curWal, logWal, nextPin, gcDue, runInfo, lastIter, manNo, flushed, deferred>>
+                 curWal, logWal, nextPin, gcDue, runInfo, lastIter, manNo, flushed, deferred, ackStore, inflight>>
 
 ---------------------------------------------------------------------------
 (* write path *)
@@ -275,7 +360,7 @@ TCommit ==
      /\ seq' = Ev.first + n - 1
   /\ Judge /\ Step(TRUE, "Commit")
   /\ UNCHANGED <<nk, imm, immOn, immDone, immWal, files, cur, pins, snaps, pending, comp, disk,
-                 nextFile, curWal, logWal, nextPin, gcDue, runInfo, keep, lastIter, manNo, isOpen, flushed, gpins, deferred>>
+                 nextFile, curWal, logWal, nextPin, gcDue, runInfo, keep, lastIter, manNo, isOpen, flushed, gpins, deferred, ackStore, inflight>>
 
 TRotate ==
   /\ IsEv("Rotate")
@@ -283,7 +368,7 @@ TRotate ==
   /\ curWal' = Ev.newwal
   /\ Judge /\ Step(TRUE, "Rotate")
   /\ UNCHANGED <<nk, seq, hist, files, cur, pins, snaps, pending, comp, disk, nextFile, logWal,
-                 nextPin, gcDue, runInfo, keep, lastIter, manNo, isOpen, flushed, gpins, deferred>>
+                 nextPin, gcDue, runInfo, keep, lastIter, manNo, isOpen, flushed, gpins, deferred, ackStore, inflight>>
 
 ---------------------------------------------------------------------------
 (* version edits: flush, compaction, trivial move, recovery *)
@@ -306,20 +391,20 @@ TEdit ==
   /\ Judge /\ Step(Ev.ok, "Edit")
   /\ flushed' = FALSE
   /\ UNCHANGED <<nk, seq, hist, mem, imm, immOn, immWal, pins, snaps, comp, disk, nextFile,
-                 curWal, nextPin, gcDue, runInfo, keep, lastIter, isOpen, gpins, deferred>>
+                 curWal, nextPin, gcDue, runInfo, keep, lastIter, isOpen, gpins, deferred, ackStore, inflight>>
 
 TFlushBuilt ==
   /\ IsEv("FlushBuilt")
   /\ flushed' = TRUE
   /\ Judge /\ Step(FALSE, "")
-  /\ UNCHANGED <<coreVars, runInfo, keep, lastIter, manNo, isOpen, gpins, deferred>>
+  /\ UNCHANGED <<coreVars, runInfo, keep, lastIter, manNo, isOpen, gpins, deferred, ackStore, inflight>>
 
 TImmDropped ==
   /\ IsEv("ImmDropped")
   /\ immOn' = FALSE /\ imm' = {} /\ immDone' = FALSE
   /\ Judge /\ Step(TRUE, "ImmDropped")
   /\ UNCHANGED <<nk, seq, hist, mem, immWal, files, cur, pins, snaps, pending, comp, disk,
-                 nextFile, curWal, logWal, nextPin, gcDue, runInfo, keep, lastIter, manNo, isOpen, flushed, gpins, deferred>>
+                 nextFile, curWal, logWal, nextPin, gcDue, runInfo, keep, lastIter, manNo, isOpen, flushed, gpins, deferred, ackStore, inflight>>
 
 TPicked ==
   /\ IsEv("Picked")
@@ -329,14 +414,14 @@ TPicked ==
   /\ Judge /\ Step(FALSE, "")
   /\ UNCHANGED <<nk, seq, hist, mem, imm, immOn, immDone, immWal, files, cur, pins, snaps,
                  pending, disk, nextFile, curWal, logWal, nextPin, gcDue, runInfo, keep, lastIter,
-                 manNo, isOpen, flushed, gpins, deferred>>
+                 manNo, isOpen, flushed, gpins, deferred, ackStore, inflight>>
 
 TOutputOpened ==
   /\ IsEv("OutputOpened")
   /\ pending' = pending \cup {Ev.f}
   /\ Judge /\ Step(FALSE, "")
   /\ UNCHANGED <<nk, seq, hist, mem, imm, immOn, immDone, immWal, files, cur, pins, snaps, comp,
-                 disk, nextFile, curWal, logWal, nextPin, gcDue, runInfo, keep, lastIter, manNo, isOpen, flushed, gpins, deferred>>
+                 disk, nextFile, curWal, logWal, nextPin, gcDue, runInfo, keep, lastIter, manNo, isOpen, flushed, gpins, deferred, ackStore, inflight>>
 
 TCompactionDone ==
   /\ IsEv("CompactionDone")
@@ -344,7 +429,7 @@ TCompactionDone ==
   /\ pending' = pending \ SeqSet(Ev.outputs)
   /\ Judge /\ Step(FALSE, "")
   /\ UNCHANGED <<nk, seq, hist, mem, imm, immOn, immDone, immWal, files, cur, pins, snaps, disk,
-                 nextFile, curWal, logWal, nextPin, gcDue, runInfo, keep, lastIter, manNo, isOpen, flushed, gpins, deferred>>
+                 nextFile, curWal, logWal, nextPin, gcDue, runInfo, keep, lastIter, manNo, isOpen, flushed, gpins, deferred, ackStore, inflight>>
 
 ---------------------------------------------------------------------------
 (* snapshots and iterators *)
@@ -355,7 +440,7 @@ TSnapshot ==
   /\ Judge /\ Step(FALSE, "")
   /\ UNCHANGED <<nk, seq, hist, mem, imm, immOn, immDone, immWal, files, cur, pins, pending,
                  comp, disk, nextFile, curWal, logWal, nextPin, gcDue, runInfo, keep, lastIter, manNo,
-                 isOpen, flushed, gpins, deferred>>
+                 isOpen, flushed, gpins, deferred, ackStore, inflight>>
 
 RemoveOne(sq, x) ==
   IF \E i \in 1..Len(sq) : sq[i] = x
@@ -369,7 +454,7 @@ TRelease ==
   /\ Judge /\ Step(FALSE, "")
   /\ UNCHANGED <<nk, seq, hist, mem, imm, immOn, immDone, immWal, files, cur, pins, pending,
                  comp, disk, nextFile, curWal, logWal, nextPin, gcDue, runInfo, keep, lastIter, manNo,
-                 isOpen, flushed, gpins, deferred>>
+                 isOpen, flushed, gpins, deferred, ackStore, inflight>>
 
 TIterNew ==
   /\ IsEv("IterNew")
@@ -378,7 +463,7 @@ TIterNew ==
   /\ lastIter' = Ev.id
   /\ Judge /\ Step(FALSE, "")
   /\ UNCHANGED <<nk, seq, hist, mem, imm, immOn, immDone, immWal, files, cur, snaps, pending,
-                 comp, disk, nextFile, curWal, logWal, nextPin, gcDue, runInfo, keep, manNo, isOpen, flushed, gpins, deferred>>
+                 comp, disk, nextFile, curWal, logWal, nextPin, gcDue, runInfo, keep, manNo, isOpen, flushed, gpins, deferred, ackStore, inflight>>
 
 TIterDrop ==
   /\ IsEv("IterDrop")
@@ -386,7 +471,7 @@ TIterDrop ==
   /\ keep' = SelectSeq(keep, LAMBDA x : x # Ev.id)
   /\ Judge /\ Step(FALSE, "")
   /\ UNCHANGED <<nk, seq, hist, mem, imm, immOn, immDone, immWal, files, cur, snaps, pending,
-                 comp, disk, nextFile, curWal, logWal, nextPin, gcDue, runInfo, lastIter, manNo, isOpen, flushed, gpins, deferred>>
+                 comp, disk, nextFile, curWal, logWal, nextPin, gcDue, runInfo, lastIter, manNo, isOpen, flushed, gpins, deferred, ackStore, inflight>>
 
 TIterDropped ==
   /\ IsEv("IterDropped")
@@ -394,25 +479,25 @@ TIterDropped ==
   /\ Judge /\ Step(FALSE, "")
   /\ UNCHANGED <<nk, seq, hist, mem, imm, immOn, immDone, immWal, files, cur, snaps, pending,
                  comp, disk, nextFile, curWal, logWal, nextPin, gcDue, runInfo, keep, lastIter,
-                 manNo, isOpen, flushed, gpins, deferred>>
+                 manNo, isOpen, flushed, gpins, deferred, ackStore, inflight>>
 
 TIterKeep ==
   /\ IsEv("IterKeep")
   /\ keep' = Append(keep, lastIter)
   /\ Judge /\ Step(FALSE, "")
-  /\ UNCHANGED <<coreVars, runInfo, lastIter, manNo, isOpen, flushed, gpins, deferred>>
+  /\ UNCHANGED <<coreVars, runInfo, lastIter, manNo, isOpen, flushed, gpins, deferred, ackStore, inflight>>
 
 TGetCapture ==
   /\ IsEv("GetCapture")
   /\ gpins' = {g \in gpins : g.t # Ev.t} \cup {[t |-> Ev.t, ver |-> cur]}
   /\ Judge /\ Step(FALSE, "")
-  /\ UNCHANGED <<coreVars, runInfo, keep, lastIter, manNo, isOpen, flushed, deferred>>
+  /\ UNCHANGED <<coreVars, runInfo, keep, lastIter, manNo, isOpen, flushed, deferred, ackStore, inflight>>
 
 TGetDone ==
   /\ IsEv("GetDone")
   /\ gpins' = {g \in gpins : g.t # Ev.t}
   /\ Judge /\ Step(FALSE, "")
-  /\ UNCHANGED <<coreVars, runInfo, keep, lastIter, manNo, isOpen, flushed, deferred>>
+  /\ UNCHANGED <<coreVars, runInfo, keep, lastIter, manNo, isOpen, flushed, deferred, ackStore, inflight>>
 
 \* a deletion pass: remember the tables it keeps only because a read view still pins them
 TObsoleteCollected ==
@@ -421,7 +506,7 @@ TObsoleteCollected ==
         {n \in UNION {FileNos(v, NL) : v \in ReadViews} :
             n \notin FileNos(cur, NL) /\ n \notin pending /\ <<"table", n>> \in disk}
   /\ Judge /\ Step(FALSE, "")
-  /\ UNCHANGED <<coreVars, runInfo, keep, lastIter, manNo, isOpen, flushed, gpins>>
+  /\ UNCHANGED <<coreVars, runInfo, keep, lastIter, manNo, isOpen, flushed, gpins, ackStore, inflight>>
 
 ---------------------------------------------------------------------------
 (* observations *)
@@ -446,7 +531,7 @@ TObs ==
                ELSE <<>> IN
      JudgeAnd(((v1 \o v2) \o v3) \o v4)
   /\ Step(FALSE, "")
-  /\ UNCHANGED <<coreVars, runInfo, keep, lastIter, manNo, isOpen, flushed, gpins, deferred>>
+  /\ UNCHANGED <<coreVars, runInfo, keep, lastIter, manNo, isOpen, flushed, gpins, deferred, ackStore, inflight>>
 
 PinById(id) == CHOOSE p \in pins : p.id = id
 
@@ -464,7 +549,7 @@ TIterObs ==
                ELSE <<>> IN
      JudgeAnd(v2 \o v3)
   /\ Step(FALSE, "")
-  /\ UNCHANGED <<coreVars, runInfo, keep, lastIter, manNo, isOpen, flushed, gpins, deferred>>
+  /\ UNCHANGED <<coreVars, runInfo, keep, lastIter, manNo, isOpen, flushed, gpins, deferred, ackStore, inflight>>
 
 \* cursor walk against the sorted map: steps are <<move, arg, key, value>>; position 0 = invalid
 FirstAtLeast(vis, k) ==
@@ -497,7 +582,7 @@ TIterWalk ==
      JudgeAnd(IF WalkOK(vis, Ev.steps, 1, 0) THEN <<>>
               ELSE ObsViol(<<"C04">>, "WalkWrong", [keys |-> <<>>, at |-> p.seq]))
   /\ Step(FALSE, "")
-  /\ UNCHANGED <<coreVars, runInfo, keep, lastIter, manNo, isOpen, flushed, gpins, deferred>>
+  /\ UNCHANGED <<coreVars, runInfo, keep, lastIter, manNo, isOpen, flushed, gpins, deferred, ackStore, inflight>>
 
 ---------------------------------------------------------------------------
 (* quiescent dumps: bind the reconstructed state to the real one and judge the shape *)
@@ -531,7 +616,7 @@ TDump ==
                 ELSE <<>> IN
      JudgeAnd((((b1 \o b2) \o b3) \o c10) \o c11)
   /\ Step(FALSE, "")
-  /\ UNCHANGED <<coreVars, runInfo, keep, lastIter, manNo, isOpen, flushed, gpins, deferred>>
+  /\ UNCHANGED <<coreVars, runInfo, keep, lastIter, manNo, isOpen, flushed, gpins, deferred, ackStore, inflight>>
 
 ---------------------------------------------------------------------------
 (* liveness observations *)
@@ -540,18 +625,18 @@ THang ==
   /\ IsEv("Hang")
   /\ JudgeAnd(ObsViol(<<"C09">>, "Hang", [keys |-> <<>>, at |-> 0]))
   /\ Step(FALSE, "")
-  /\ UNCHANGED <<coreVars, runInfo, keep, lastIter, manNo, isOpen, flushed, gpins, deferred>>
+  /\ UNCHANGED <<coreVars, runInfo, keep, lastIter, manNo, isOpen, flushed, gpins, deferred, ackStore, inflight>>
 
 TPanic ==
   /\ IsEv("Panic")
   /\ JudgeAnd(ObsViol(<<"C09">>, "Panic", [keys |-> <<>>, at |-> 0]))
   /\ Step(FALSE, "")
-  /\ UNCHANGED <<coreVars, runInfo, keep, lastIter, manNo, isOpen, flushed, gpins, deferred>>
+  /\ UNCHANGED <<coreVars, runInfo, keep, lastIter, manNo, isOpen, flushed, gpins, deferred, ackStore, inflight>>
 
 ---------------------------------------------------------------------------
 
 TraceNext ==
-  \/ TReset \/ TEnd \/ TStutter \/ TFs
+  \/ TReset \/ TEnd \/ TStutter \/ TFs \/ TCall \/ TRet \/ TProbe
   \/ TRecoverManifest \/ TOpened \/ TOpenRet \/ TClosed
   \/ TCommit \/ TRotate \/ TEdit \/ TFlushBuilt \/ TImmDropped \/ TPicked \/ TOutputOpened \/ TCompactionDone
   \/ TSnapshot \/ TRelease \/ TIterNew \/ TIterDrop \/ TIterDropped \/ TIterKeep
